@@ -16,7 +16,7 @@ from contextlib import contextmanager
 from pathlib import Path
 
 ID = "C07"
-LEVEL_TEXT = ("Theorems for all inputs (28, all closed under the global context). C3 merge: Griffe's deque-based c3linear_merge equals CPython's "
+LEVEL_TEXT = ("Theorems for all inputs (32, all closed under the global context). C3 merge: Griffe's deque-based c3linear_merge equals CPython's "
               "index-vector pmerge on every list of lists (same result, same failures), terminates, satisfies the C3 conditions; empty lists are "
               "neutral; erasing a class that is last wherever it occurs commutes with the merge, failures included (and the hypothesis is needed). "
               "Tables: Class._mro equals CPython's mro_implementation (fast path, duplicate-base check, pmerge) on every table a Python program can "
@@ -25,11 +25,14 @@ LEVEL_TEXT = ("Theorems for all inputs (28, all closed under the global context)
               "(typing.Generic, an unloaded package) Griffe's MRO on the collection without it is CPython's MRO with it erased whenever it is written "
               "last and is last in every merged linearisation (decidable predicate; otherwise refuted by a 7-class witness = finding C07-F1). "
               "Members: inherited_members = nearest definition along the MRO, never a declared name; all_members = CPython's lookup through tp_mro; "
-              "inherited aliases live under the subclass's path. Base expressions: resolution of a base (Expr.canonical_path through Object.resolve, "
-              "get_member through aliases, final_target with its cycle guards, the except-and-drop and is_class filter) always returns, is transparent "
-              "for subscripts, yields an object that is never an alias, is sound against the Python reading of the same expression through any alias "
-              "chain (what Griffe resolves to a class IS Python's base), so resolved_bases is a subsequence of Python's bases and all of them when "
-              "nothing is dropped; the one way the readings differ on a resolved base is an assigned name (`Base = K1`, refuted = finding C07-F2). "
+              "inherited aliases live under the subclass's path and finally lead to an object, never an alias. Base expressions: Class.resolved_bases "
+              "as repaired by 3a123f9 (Expr.canonical_path through Object.resolve, get_member through aliases, final_target with its cycle guards, "
+              "the loop following assigned names with its `followed` set, the except-and-drop, the is_class filter) always returns (alias and "
+              "assignment cycles are dropped), is transparent for subscripts, yields an object that is never an alias; a base that goes through no "
+              "assignment is resolved to exactly what it denotes in Python (nested evaluation) through any alias chain; for every list of bases "
+              "Griffe's bases are a subsequence of -- and, when all resolve, equal to -- the bases under 'every assigned name denotes its value', "
+              "and the loop agrees with that reading unless it stops at a subscripted value; what remains of finding C07-F2 (subscripted value, "
+              "assigned name in the middle of a chain, name bound again later) is refuted by three witnesses. "
               "The models are tied to the code by exhaustive hierarchies (N<=5 quick, N<=6 thorough, <=3 ordered bases), random hierarchies with "
               "members across modules, packages generated as source with 8 import styles x subscripts x assignment aliases x Generic[T]/object "
               "bases x holder classes x alias members over module names that extend each other and nested packages -- each loaded by the visitor AND "
@@ -42,9 +45,12 @@ LEVEL_NOTE = ("Trusted: Coq kernel, extraction, the abstractions in this module 
               "base) is what (O) compares with real __mro__. Modelled rather than verified: classes are identified with their paths; alias "
               "resolution is modelled at the level of its outcome (object found / KeyError / cyclic), not of Alias._target caching (C06's subject); "
               "flow-insensitive scopes (each name bound once); no theorem links the heap without externals to the heap with them (checked by (O) "
-              "only); C07_hidden_last_only is stated for ONE hidden root class (object is covered by the elision theorems), several hidden classes "
-              "at once are checked, not proved. Known findings (classified only when the extracted model reproduces both Griffe's and CPython's "
-              "answer on that input): C07-F1, C07-F2.")
+              "only); the link between the iterative reading used in the subsequence theorems ('every assigned name denotes its value', followed at the end "
+              "of a chain) and the nested Python evaluation (fin true, also in the middle of a chain) is proved for bases without assignments and CHECKED "
+              "otherwise ((O): the model's Python bases = real __bases__ on every generated program); C07_hidden_last_only is stated for ONE hidden root "
+              "class (object is covered by the elision theorems), several hidden classes at once are checked, not proved. Known findings (classified only "
+              "when the extracted model reproduces both Griffe's and CPython's answer on that input): C07-F1, C07-F2 (narrowed; the plain case is fixed "
+              "by 3a123f9 and now a must-pass corpus program).")
 MODEL = ("Model.C07_bases", "run_C07b")          # run_C07b falls through to Model.C07_mro.run_C07 for the table-level requests
 MODEL_TARGETS = ["Model/C07_bases.vo"]
 COQ_TARGETS = ["Proofs/C07_mro.vo", "Proofs/C07_bases.vo", "Proofs/C07_hidden.vo"]
@@ -60,8 +66,9 @@ RULE = ("(1) every hierarchy of N<=5 (quick) / N<=6 (thorough) classes where cla
         "(8) programs: 1-4 modules drawn from a pool of dotted names (shapes/shapes_base/sh, core/core2, m1/m10, sub/subs, sub.mod/sub.mod_x, "
         "sub.deep.leaf: prefixes, underscores, nested packages with and without classes in __init__), 2-7 classes in module order, each base "
         "written in one of 8 styles (from, from-as, import dotted, from parent import module, relative, import as, re-export through the top "
-        "__init__, wildcard) or by its local / holder-qualified name, optionally through 1-2 assignment aliases, optionally subscripted ([int] / [T]) "
-        "when the base is generic; Generic[T] / typing.Generic[T] (last, rarely elsewhere) and explicit object (last, rarely first) bases; members "
+        "__init__, wildcard) or by its local / holder-qualified name, optionally through 1-2 assignment aliases (plain -- followed since 3a123f9 --, or one "
+        "of the residual shapes: subscripted value, alias in the middle of the chain, name bound again after the class), optionally subscripted "
+        "([int] / [T]) when the base is generic; Generic[T] / typing.Generic[T] (last, rarely elsewhere) and explicit object (last, rarely first) bases; members "
         "own or imported into the class body; each program is checked class by class for the visitor tree and for the inspector tree "
         "(force_inspection) against the model, the real import and type(); corpus/C07/programs.json first; "
         "(9) alias mazes: 3 modules whose names are bound by random import-from chains incl. cycles, self-imports, dangling and out-of-package "
@@ -80,7 +87,7 @@ ASSUMPTIONS = ["items merged by c3linear_merge are Class objects, always truthy 
                "a class is identified by its path (Class._mro's `seen` holds paths); tables never contain two classes with one path",
                "C07_mro_eq_cpython, C07_all_members_eq_getattr and C07_hidden_last_only are stated for ordered tables (every base created before the class): the "
                "hierarchies Python source can express; for other acyclic tables the equality is checked by (C)+(O) only",
-               "generated programs bind each name once and before use (flow-insensitive scopes); classes nested at most one level (Object.resolve leaking through "
+               "generated programs bind each name once and before use, except the deliberate rebinding shape of C07-F2 (flow-insensitive scopes); classes nested at most one level (Object.resolve leaking through "
                "several enclosing classes is C04's finding); base expressions are names, attribute chains and subscripts of those (calls, conditional "
                "expressions and bases inherited as attributes of another class -- `class C(Sub.Inner)` with Inner defined in a base of Sub -- are not generated)",
                "attr_leaf: an attribute has no members in the collection (hypothesis of the soundness theorems; true of every tree the agents build)",
@@ -1153,7 +1160,9 @@ def gen_program(rng, tag, gaps=True):
         specs = []
         for b in bases:
             specs.append({"b": b, "style": rng.choice(XSTYLES2), "sub": rng.choice([None, "int", "int", "T"]),
-                          "assign": (rng.choice([1, 1, 2]) if gaps and rng.random() < 0.06 else 0)})
+                          "assign": (rng.choice([1, 1, 2]) if rng.random() < 0.1 else 0),
+                          # how the assignment stands: plain (`B = K0`, followed since fix 3a123f9) or one of the residual shapes of C07-F2
+                          "form": (rng.choice(["plain", "plain", "plain", "sub-first", "mid", "rebind"]) if gaps else "plain")})
         generic = None
         if rng.random() < 0.22:
             pos = len(specs) if (not gaps or rng.random() < 0.85) else rng.randrange(len(specs) + 1)
@@ -1219,6 +1228,7 @@ def render_program(prog):
     cpath = [P[c["mod"]] + ([f"H{c['holder']}"] if c["holder"] is not None else []) + [f"K{i}"] for i, c in enumerate(classes)]
     heap_mod = {j: [] for j in range(len(mods))}       # explicit entries of module j, in first-match order
     heap_by_mod = {}
+    patch = []                                          # bindings current when a class statement ran, where the final one differs
     wild = {j: [] for j in range(len(mods))}
     typing_names = {j: set() for j in range(len(mods))}
     imports = {j: [] for j in range(len(mods))}
@@ -1285,6 +1295,8 @@ def render_program(prog):
     for i, c in enumerate(classes):
         j = c["mod"]
         pre = []                                        # module-level assignment lines standing before the class (or its holder)
+        post = []                                       # ... and after it (rebinding)
+        nested_i = c["holder"] is not None
         texts, bexprs = [], []
         for pos, spec in enumerate(c["bases"]):
             b = spec["b"]
@@ -1301,18 +1313,46 @@ def render_program(prog):
                     st += "/nested"
             text, bx = ".".join(parts), _bx(parts)
             same_holder = classes[b]["mod"] == j and classes[b]["holder"] is not None and classes[b]["holder"] == c["holder"]
-            for lvl in range(0 if same_holder else (spec.get("assign") or 0)):
+            levels = 0 if same_holder else (spec.get("assign") or 0)
+            form = spec.get("form") or "plain"
+            want_sub = bool(spec.get("sub")) and subs[b]
+            if want_sub and spec["sub"] == "T":
+                typing_names[j].add("Generic")
+            if levels and form == "sub-first" and want_sub and not c.get("generic"):
+                # `IntG = G[int]` then `class D(IntG)`: the assigned value is subscripted (residual shape (a))
+                text, bx = f"{text}[{spec['sub']}]", ["s", bx]
+                want_sub = False
+                st += "+sub-in-value"
+            tail = None
+            if levels and form == "mid" and len(parts) >= 2:
+                # `ns = H` then `class E(ns.Inner)`: the assigned name stands in the middle of the chain (residual shape (b))
+                tail = parts[-1]
+                text, bx = ".".join(parts[:-1]), _bx(parts[:-1])
+                st += "+assign-mid"
+            first_value = None
+            for lvl in range(levels):
                 name = f"B{i}_{pos}" + ("" if lvl == 0 else f"_{lvl}")
                 pre.append(f"{name} = {text}")
-                heap_mod[j].append([P[j] + [name], ["attr", bx]])
+                entry = [P[j] + [name], ["attr", bx]]
+                heap_mod[j].append(entry)
+                if lvl == levels - 1:
+                    first_value = entry
                 text, bx = name, ["n", name]
                 st += "+assign"
+            if levels and form == "rebind" and not nested_i:
+                # `Base = K1; class C(Base); Base = K2`: the collection keeps the last binding (residual shape (c))
+                others = [r for r in range(i) if r != b and classes[r]["mod"] == j and classes[r]["holder"] is None]
+                other = f"K{others[-1]}" if others else f"K{i}"
+                post.append(f"{first_value[0][-1]} = {other}")
+                patch.append([first_value[0], first_value[1]])
+                first_value[1] = ["attr", ["n", other]]
+                st += "+rebind"
+            if tail is not None:
+                text, bx = f"{text}.{tail}", ["a", bx, tail]
             # the subscript goes on last (`B = K0` then `B[int]`): whether a base is a generic alias is then visible in its syntax
-            if spec.get("sub") and subs[b]:
+            if want_sub:
                 text, bx = f"{text}[{spec['sub']}]", ["s", bx]
                 st += "+sub"
-                if spec["sub"] == "T":
-                    typing_names[j].add("Generic")
             styles.append(st)
             texts.append(text)
             bexprs.append(bx)
@@ -1368,7 +1408,7 @@ def render_program(prog):
             blocks[j][-1][1][:0] = pre
             blocks[j][-1][2].extend(lines)
         else:
-            blocks[j].append([c["holder"] if nested else None, pre, lines])
+            blocks[j].append([c["holder"] if nested else None, pre, lines + post])
         scope = P[j] + ([f"H{c['holder']}"] if nested else [])
         xclasses.append([cpath[i], scope, bexprs, list(c["members"]), malias])
     files = {}
@@ -1418,7 +1458,7 @@ def render_program(prog):
     heap[2:2] = heap_init
     files["__init__.py"] = "\n".join(init) + "\n"
     return {"files": files, "heap": heap, "xclasses": xclasses, "paths": [".".join(p) for p in cpath], "styles": styles,
-            "request": ["prog", [heap, xclasses, EXT_PATHS, OBJECT_PATH]]}
+            "request": ["prog", [heap, xclasses, EXT_PATHS, OBJECT_PATH, patch]]}
 
 
 def observe2(cls):
@@ -1599,9 +1639,9 @@ def eval_program(ctx, prog, root, mout, inspected=True, stream="program"):
             repro = check_program_row(ctx, case, row, obs, o, paths, n, c)
             f2 = any(mout[k][10] for k in hierarchy_of(pb, c))
         else:
-            f2 = any(b.get("assign") for k in hierarchy_of(pb, c) for b in prog["classes"][k]["bases"])
+            f2 = any(b.get("assign") and (b.get("form") or "plain") != "plain" for k in hierarchy_of(pb, c) for b in prog["classes"][k]["bases"])
         f1 = gap_F1(pb, orc, c)
-        ctx.observe("program_gap", ("assign " if f2 else "") + ("external-not-last" if f1 else "") or "none")
+        ctx.observe("program_gap", ("misresolved-assignment " if f2 else "") + ("external-not-last" if f1 else "") or "none")
         for d in details:
             finding = None
             if mout is None:
@@ -1814,8 +1854,8 @@ def prog_variants(prog, keep):
         if c.get("holder") is not None:
             yield with_classes([{**x, "holder": None} if ii == i else x for ii, x in enumerate(cl)]), keep
         for j, b in enumerate(c["bases"]):
-            for key, plain in (("assign", 0), ("sub", None), ("style", "from")):
-                if b.get(key) != plain:
+            for key, plain in (("assign", 0), ("form", "plain"), ("sub", None), ("style", "from")):
+                if (b.get(key) or plain) != plain:
                     nb = c["bases"][:j] + [{**b, key: plain}] + c["bases"][j + 1:]
                     yield with_classes([{**x, "bases": nb} if ii == i else x for ii, x in enumerate(cl)]), keep
         if c["amembers"]:
@@ -1954,7 +1994,7 @@ def gen_maze(rng, tag):
     files = {"__init__.py": ""}
     for m in mods:
         files[f"{m}.py"] = "\n".join(lines[m]) + "\n"
-    return {"pkg": pkg, "files": files, "heap": heap, "xclasses": xclasses, "request": ["prog", [heap, xclasses, [], OBJECT_PATH]]}
+    return {"pkg": pkg, "files": files, "heap": heap, "xclasses": xclasses, "request": ["prog", [heap, xclasses, [], OBJECT_PATH, []]]}
 
 
 def stream_mazes(ctx, count):
@@ -2114,34 +2154,36 @@ def _replay_program(ctx, case):
 
 
 def replay_findings(ctx):
-    """Replay the witnesses of findings/C07.json on the implementation, every run."""
+    """Replay the witnesses of findings/C07.json on the implementation, every run (a finding reproduces when all its witnesses do)."""
     import griffe
     fp = Path(__file__).resolve().parents[2] / "findings" / "C07.json"
     if not fp.exists():
         return
     root = ctx.scratch / "witness"
     root.mkdir(parents=True, exist_ok=True)
+    sys.dont_write_bytecode = True
     for f in json.loads(fp.read_text()).get("findings", []):
-        w = f.get("witness") or {}
-        if "source" not in w:
-            continue
-        mod = "c07w" + f["id"].replace("-", "").lower()
-        (root / f"{mod}.py").write_text(w["source"])
-        try:
-            m = griffe.load(mod, search_paths=[str(root)])
-            got = [k.name for k in m[w["class"]].mro()]
-        except Exception as e:  # noqa: BLE001
-            got = f"{type(e).__name__}"
-        sys.dont_write_bytecode = True
-        sys.path.insert(0, str(root))
-        try:
-            importlib.invalidate_caches()
-            real = importlib.import_module(mod)
-            want = [k.__name__ for k in getattr(real, w["class"]).__mro__[1:-1] if k.__module__ == mod]
-        finally:
-            sys.path.remove(str(root))
-            sys.modules.pop(mod, None)
-        ctx.witness(f["id"], got != want and got == w.get("griffe_mro") and want == w.get("cpython_mro"))
+        ok_all = True
+        for wi, w in enumerate([f.get("witness") or {}] + list(f.get("more_witnesses") or [])):
+            if "source" not in w:
+                continue
+            mod = "c07w" + f["id"].replace("-", "").lower() + f"w{wi}"
+            (root / f"{mod}.py").write_text(w["source"])
+            try:
+                m = griffe.load(mod, search_paths=[str(root)])
+                got = [k.name for k in m[w["class"]].mro()]
+            except Exception as e:  # noqa: BLE001
+                got = f"{type(e).__name__}"
+            sys.path.insert(0, str(root))
+            try:
+                importlib.invalidate_caches()
+                real = importlib.import_module(mod)
+                want = [k.__name__ for k in getattr(real, w["class"]).__mro__[1:-1] if k.__module__ == mod]
+            finally:
+                sys.path.remove(str(root))
+                sys.modules.pop(mod, None)
+            ok_all = ok_all and got != want and got == w.get("griffe_mro") and want == w.get("cpython_mro")
+        ctx.witness(f["id"], ok_all)
 
 
 def _replay(ctx, data):
